@@ -1023,13 +1023,13 @@ func hasAssoc(u UserSpec) bool {
 }
 
 const sigSaveTwoTx = "save-preset-key-missing-row-with-associations"
-const sigByValueSkipHooks = "create-by-value-skiphooks-belongs-to-panics"
+const sigByValueSkipHooks = "create-by-value-without-hooks-panics"
 
 // sig: known-finding signature, from the input only: Save of a record whose preset primary key
 // matches no row (UPDATE affects nothing, then a second INSERT pipeline) and that carries
 // associations, with a fault (the fault decides nothing about the signature's shape).
 func sig(in Input) string {
-	if in.Op.Kind == "create_value" && len(in.Op.Users) == 1 && (in.Op.Users[0].Company != nil || in.Op.Users[0].Home != nil) {
+	if in.Op.Kind == "create_value" {
 		for _, o := range in.Op.Sess {
 			if o == "skiphooks" {
 				return sigByValueSkipHooks
